@@ -67,17 +67,13 @@ func TestC06(t *testing.T) {
 	// refusals: mismatched shapes, mismatched element types, non-numeric element types
 	for _, op := range arithOps {
 		op := op
-		cell(t, "C06", "EW", op+"/mismatch-shape", nCases(6, 60), func(rt *rapid.T) Case {
+		cell(t, "C06", "EW", op+"/mismatch-shape", nCases(20, 400), func(rt *rapid.T) Case {
 			d := rapid.SampledFrom(numDTs).Draw(rt, "dt")
 			c := genArithCase(rt, "C06", op, d, "TT", rapid.SampledFrom([]string{"pkg", "method"}).Draw(rt, "via"), "safe", c06LayoutKinds)
 			if op == "MinBetween" || op == "MaxBetween" {
 				c.Via = "pkg"
 			}
-			// another shape with a different number of elements
-			shape := ewShape(rt)
-			if prod(shape) == prod(c.A.Shape) {
-				shape = append([]int{2}, shape...)
-			}
+			shape := mismatchedShape(rt, c.A.Shape)
 			b := genOpnd(rt, shape, "contig", -3, 9, 0, "b2")
 			c.B = &b
 			return c
@@ -105,6 +101,32 @@ func TestC06(t *testing.T) {
 			})
 		}
 	}
+}
+
+// mismatchedShape: another shape with a different number of elements: an unrelated one, or a near miss
+// (one element with a rank, one axis cut to length one as if to be broadcast, an axis more or less).
+func mismatchedShape(rt *rapid.T, as []int) []int {
+	shape := ewShape(rt)
+	switch rapid.IntRange(0, 5).Draw(rt, "nearmiss") {
+	case 0:
+		shape = cloneInts(rapid.SampledFrom([][]int{{1}, {1, 1}, {1, 1, 1}}).Draw(rt, "one"))
+	case 1:
+		if len(as) > 0 {
+			shape = cloneInts(as)
+			shape[rapid.IntRange(0, len(as)-1).Draw(rt, "cut")] = 1
+		}
+	case 2:
+		if len(as) > 1 {
+			i := rapid.IntRange(0, len(as)-1).Draw(rt, "drop")
+			shape = append(cloneInts(as[:i]), as[i+1:]...)
+		}
+	case 3:
+		shape = append(cloneInts(as), 2)
+	}
+	if prod(shape) == prod(as) {
+		shape = append([]int{2}, shape...)
+	}
+	return shape
 }
 
 func indexOfDT(d DT) int {
